@@ -62,10 +62,30 @@ type VFS struct {
 	opLog     []string
 	regexps   map[*Cell]string
 	misparsed bool
+	// fsync bookkeeping (not part of the crash model: every write is durable at once; this only
+	// records whether the code asked for durability before it relied on it)
+	dirty        map[string]bool
+	renamedDirty bool
+	// the file system as it was when the crashing run ended (what a native replay must start from)
+	crashNodes map[string]*vnode
+	crashOps   []string
+}
+
+// freeze records the current file system as the post-crash image.
+func (v *VFS) freeze() {
+	v.crashNodes = map[string]*vnode{}
+	for p, n := range v.nodes {
+		c := &vnode{dir: n.dir}
+		if n.file != nil {
+			c.file = &vfile{id: n.file.id, chunks: append([]*vchunk{}, n.file.chunks...)}
+		}
+		v.crashNodes[p] = c
+	}
+	v.crashOps = append([]string{}, v.opLog...)
 }
 
 func newVFS() *VFS {
-	return &VFS{nodes: map[string]*vnode{"/": {dir: true}}, handles: map[*Cell]*vhandle{}, streams: map[*Cell]*vstream{}, regexps: map[*Cell]string{}}
+	return &VFS{nodes: map[string]*vnode{"/": {dir: true}}, handles: map[*Cell]*vhandle{}, streams: map[*Cell]*vstream{}, regexps: map[*Cell]string{}, dirty: map[string]bool{}}
 }
 
 type crashSignal struct{}
@@ -167,7 +187,7 @@ func chunkSize(c *vchunk) *Term {
 	switch c.kind {
 	case 0:
 		return mkConst(64, uint64(c.hbytes))
-	case 1:
+	case 1, 3:
 		return c.avail
 	default:
 		return mkConst(64, uint64(len(c.raw)))
@@ -218,10 +238,26 @@ func (ex *Exec) openFile(fn *ssa.Function, path string, create, trunc bool) Valu
 }
 
 func (ex *Exec) appendChunk(h *vhandle, c *vchunk) {
-	if h.pos != len(h.f.chunks) {
-		ex.fatal("vfs: write that is not at the end of the file (pos %d of %d chunks)", h.pos, len(h.f.chunks))
+	ex.vfs.dirty[h.path] = true
+	if h.pos == len(h.f.chunks) {
+		h.f.chunks = append(h.f.chunks, c)
+		h.pos++
+		return
 	}
-	h.f.chunks = append(h.f.chunks, c)
+	// overwrite in place: the new bytes replace what follows the position; whatever of the old content
+	// extends beyond them stays in the file as bytes that belong to no record (kind 3)
+	old := mkConst(64, 0)
+	for _, oc := range h.f.chunks[h.pos:] {
+		old = mkBin("bvadd", old, chunkSize(oc))
+	}
+	nsz := chunkSize(c)
+	keep := append([]*vchunk{}, h.f.chunks[:h.pos]...)
+	keep = append(keep, c)
+	if !ex.branch(mkCmp("bvule", old, nsz)) {
+		keep = append(keep, &vchunk{kind: 3, avail: mkBin("bvsub", old, nsz)})
+		ex.tags["overwrite"] = "old-bytes-left-behind-new-record"
+	}
+	h.f.chunks = keep
 	h.pos++
 }
 
@@ -325,6 +361,15 @@ func (ex *Exec) readHeader(chunks []*vchunk, pos *int) (*Term, Value) {
 			*pos++
 			return nil, ex.ioSentinel("io", "ErrUnexpectedEOF")
 		}
+	}
+	if c.kind == 3 {
+		// bytes of an old record left behind a shorter new one are read as a length header: any int32.
+		// Negative: the reader's make([]byte, size) panics; zero: an empty phantom record; positive: a
+		// record that ends beyond the end of the file (indistinguishable from a torn append).
+		ex.vfs.misparsed = true
+		ex.tags["misparse"] = "leftover-bytes-read-as-length-header"
+		*pos = len(chunks)
+		return ex.newVar("leftover.header", 32), nilErr()
 	}
 	// four bytes are taken from something that is not a length header: the framing is lost
 	ex.vfs.misparsed = true
@@ -492,6 +537,7 @@ func registerIOIntercepts() {
 				}
 				ex.vfs.logOp("sync " + h.path)
 				ex.vfsEvent("sync", h.path)
+				ex.vfs.dirty[h.path] = false
 			}
 			return nilErr()
 		},
@@ -524,6 +570,7 @@ func registerIOIntercepts() {
 				ex.crashPoint("truncate " + h.path)
 				h.f.chunks = h.f.chunks[:k]
 				ex.vfs.logOp("truncate " + h.path)
+				ex.vfs.dirty[h.path] = true
 			}
 			return nilErr()
 		},
@@ -623,6 +670,11 @@ func registerIOIntercepts() {
 				return ex.pathErr("exist")
 			}
 			ex.crashPoint("rename " + from + " -> " + to)
+			if v.dirty[from] {
+				v.renamedDirty = true
+			}
+			v.dirty[to] = v.dirty[from]
+			delete(v.dirty, from)
 			v.removeAll(to)
 			v.nodes[to] = n
 			delete(v.nodes, from)
